@@ -90,8 +90,49 @@ AlphaI64 == { LGet(0), LGet(3), LSet(3), LTee(3), C64(-1), C64(5), Cv("extend_s"
 AlphabetOf ==
   CASE Cfg = "ctl" -> AlphaCtl [] Cfg = "ctl2" -> AlphaCtl2 [] Cfg = "loop" -> AlphaLoop
     [] Cfg = "mem" -> AlphaMem [] Cfg = "call" -> AlphaCall [] Cfg = "i64" -> AlphaI64
+    [] Cfg \in {"witness", "alu"} -> {}
     [] Cfg = "all" -> AlphaCtl \cup AlphaCtl2 \cup AlphaLoop \cup AlphaMem \cup AlphaCall \cup AlphaI64
 
 NoHostQ == <<>>
+
+(* ---- fixed bodies: pinned witnesses of the recorded findings, and ALU vectors ---- *)
+MIN32 == MinVal(2)
+CV(t, v) == [op |-> "const", t |-> t, v |-> v]
+Witnesses == {
+  \* D1: preserving copy inside an untaken if
+  << LGet(0), LGet(1), Iff(0), C32(99), LSet(0), End, End >>,
+  \* D1 variant: the local.set is skipped by a taken br_if
+  << LGet(0), Blk(0), LGet(1), BrIf(0), C32(9), LSet(0), End, End >>,
+  \* D1 variant: if/else where only the else branch runs
+  << LGet(0), LGet(1), Iff(0), C32(1), LSet(0), Els, C32(2), LSet(0), End, End >>,
+  \* D2: block-result register recycled after a not-taken br_if
+  << Blk(2), C32(1), C32(0), BrIf(0), Drop, LGet(0), C32(5), Bin(2, "add"), C32(7), C32(0), BrIf(0), Drop, End, End >>,
+  \* D3: rem_s(MIN, -1)
+  << CV(2, MIN32), C32(-1), Bin(2, "rem_s"), End >>,
+  << C32(300), CV(4, MinVal(4)), C64(-1), Bin(4, "rem_s"), Store(4, 8, 0), C32(300), Load(2, 4, FALSE, 0), End >>,
+  \* D4: br_if to the function label clobbers local 0
+  << C32(42), C32(0), BrIf(0), Drop, LGet(0), End >> }
+
+B32 == { I32(0), I32(1), I32(2), I32(-1), I32(-2), MIN32, MaxVal(2), I32(31), I32(32), I32(33), I32(65535), I32(65536), I32(-65536), <<21845, 21845>> }
+B64 == { I64(0), I64(1), I64(-1), I64(-2), MinVal(4), MaxVal(4), I64(63), I64(64), I64(65), <<0, 0, 1, 0>>, <<65535, 65535, 0, 0>>,
+         <<0, 32768, 65535, 65535>>, <<21845, 21845, 21845, 21845>>, I64(7) }
+BV(t) == IF t = 2 THEN B32 ELSE B64
+Res32(bodyOps) == bodyOps \o <<End>>
+Res64(bodyOps) == << C32(300) >> \o bodyOps \o << Store(4, 8, 0), C32(300), Load(2, 4, FALSE, 0), End >>
+ALUBodies(dummy) ==   \* parameterised so that TLC does not evaluate it eagerly at start-up
+  { Res32(<< CV(2, a), CV(2, b), Bin(2, n) >>) : a \in B32, b \in B32, n \in BinopNames }
+  \cup { Res64(<< CV(4, a), CV(4, b), Bin(4, n) >>) : a \in B64, b \in B64, n \in BinopNames }
+  \cup { Res32(<< CV(t, a), CV(t, b), Rel(t, n) >>) : t \in {2, 4}, a \in B32 \cup B64, b \in B32 \cup B64, n \in RelopNames }
+  \cup { Res32(<< CV(2, a), Un(2, n) >>) : a \in B32, n \in UnopNames }
+  \cup { Res64(<< CV(4, a), Un(4, n) >>) : a \in B64, n \in UnopNames }
+  \cup { Res32(<< CV(t, a), EqzI(t) >>) : t \in {2, 4}, a \in B32 \cup B64 }
+  \cup { Res32(<< CV(4, a), Cv("wrap") >>) : a \in B64 }
+  \cup { Res64(<< CV(2, a), Cv(n) >>) : a \in B32, n \in {"extend_s", "extend_u"} }
+  \cup { Res32(<< CV(2, a), Cv(n) >>) : a \in B32, n \in {"i32.extend8_s", "i32.extend16_s"} }
+  \cup { Res64(<< CV(4, a), Cv(n) >>) : a \in B64, n \in {"i64.extend8_s", "i64.extend16_s", "i64.extend32_s"} }
+WellTyped(b) == \A i \in 1..Len(b) : (b[i].op = "const" => Len(b[i].v) = b[i].t)
+FixedBodies == IF Cfg = "witness" THEN Witnesses ELSE {b \in ALUBodies(0) : WellTyped(b)}
+FInit == body \in FixedBodies /\ vs = VInit(2) /\ phase = "done"
+FSpec == FInit /\ [][UNCHANGED gvars]_gvars
 ArgsT == { <<I32(10), I32(0)>>, <<I32(10), I32(1)>>, <<I32(0), I32(7)>>, <<I32(-1), I32(3)>> }
 =============================================================================
